@@ -237,6 +237,48 @@ class AuditLog:
         self.active = False
         self._busy = False
         self._installed = False
+        self._dcache = {}      # directory path as written -> its real path (dropped whenever a link/dir goes away)
+
+    # Resolution with a cache for the directory part: a runaway copy produces thousands of operations on
+    # 4000-character paths, and resolving each from scratch costs (components)^2 lookups.
+    def _real_dir(self, d):
+        r = self._dcache.get(d)
+        if r is None:
+            r = resolve_full(d)
+            if len(self._dcache) > 4096:
+                self._dcache.clear()
+            self._dcache[d] = r
+        return r
+
+    def _entry(self, path):
+        path = os.fsdecode(path)
+        if not os.path.isabs(path):
+            path = os.path.join(os.getcwd(), path)
+        head, tail = os.path.split(path.rstrip("/") or "/")
+        if tail in ("", ".", ".."):
+            return resolve_full(path)
+        return os.path.join(self._real_dir(head), tail)
+
+    def _full(self, path):
+        path = os.fsdecode(path)
+        if not os.path.isabs(path):
+            path = os.path.join(os.getcwd(), path)
+        try:
+            if stat.S_ISLNK(os.lstat(path).st_mode):
+                return resolve_full(path)
+        except OSError:
+            pass
+        return self._entry(path)
+
+    def _invalidate_if_structural(self, event, path):
+        if event in ("os.rmdir", "os.rename", "os.symlink", "shutil.move"):
+            self._dcache.clear()
+        elif event == "os.remove":
+            try:
+                if stat.S_ISLNK(os.lstat(path).st_mode):
+                    self._dcache.clear()
+            except OSError:
+                pass
 
     def install(self):
         if not self._installed:
@@ -275,7 +317,7 @@ class AuditLog:
             if not writable:
                 return
             nofollow = isinstance(flags, int) and bool(flags & os.O_NOFOLLOW)
-            p = resolve_entry(path) if nofollow else resolve_full(path)
+            p = self._entry(path) if nofollow else self._full(path)
             self.events.append((event, "write", p, ""))
             return
         spec = self.ENTRY_OPS.get(event)
@@ -283,25 +325,28 @@ class AuditLog:
             op, pi, di = spec
             p = _with_dirfd(args[pi], args[di] if di is not None and len(args) > di else None)
             if p is not None:
-                self.events.append((event, op, resolve_entry(p), ""))
+                rp = self._entry(p)
+                self.events.append((event, op, rp, ""))
+                self._invalidate_if_structural(event, rp)
             return
         spec = self.FOLLOW_OPS.get(event)
         if spec:
             op, pi, di = spec
             p = _with_dirfd(args[pi], args[di] if di is not None and len(args) > di else None)
             if p is not None:
-                self.events.append((event, op, resolve_full(p), ""))
+                self.events.append((event, op, self._full(p), ""))
             return
         spec = self.TWO_PATH.get(event)
         if spec:
+            self._dcache.clear()
             op, src, dst = spec
             if src is not None:
                 p = _with_dirfd(args[src[0]], args[src[1]] if len(args) > src[1] else None)
                 if p is not None:
-                    self.events.append((event, "rename-from", resolve_entry(p), ""))
+                    self.events.append((event, "rename-from", self._entry(p), ""))
             p = _with_dirfd(args[dst[0]], args[dst[1]] if len(args) > dst[1] else None)
             if p is not None:
-                self.events.append((event, "rename-to" if op == "rename" else op, resolve_entry(p), ""))
+                self.events.append((event, "rename-to" if op == "rename" else op, self._entry(p), ""))
             return
         spec = self.SHUTIL.get(event)
         if spec:
@@ -311,7 +356,7 @@ class AuditLog:
             except (TypeError, IndexError):
                 return
             # the destination of a copy is followed (copyfile opens it), a tree operation acts on the entry
-            res = resolve_full(p) if op in ("write", "meta") else resolve_entry(p)
+            res = self._full(p) if op in ("write", "meta") else self._entry(p)
             self.events.append((event, op, res, ""))
             return
         if event in self.SPAWN:
